@@ -58,6 +58,7 @@ def replay_chunk(args):
     fails = []
     stats = {"evals": 0, "nontrivial": 0, "skipped": 0}
     for si, (sc, al) in enumerate(pairs):
+        core.tick(sc, 600)
         tags = scen.features(sc) | {"c15"} | {"link." + l for l in al["links"]}
         if not scen.well_formed(sc) or any(r["warns"] for r in sc["res"]) or "argv.forced_name_beside_main" in tags:
             stats["skipped"] += 1
